@@ -63,8 +63,14 @@ func genC08Case(t *simrt.Tape) *c08case {
 	c := &c08case{}
 	ns := 1 + t.Choose(K, 3)
 	nt := 1 + t.Choose(K, 2)
+	// Mostly small profiles (ties are dense there); sometimes large enough for
+	// the default trimming (nodecount 80, node/edge fractions) to engage.
+	mf, ms, md := 6, 8, 4
+	if t.Bool(K, 8) {
+		mf, ms, md = 150, 120, 8
+	}
 	mk := func() []byte {
-		return encodeProfile(genProfile(t, genOpts{types: nt, tieRich: true, negative: true, labels: true, inlines: true, maxFuncs: 6, maxSamples: 8, maxDepth: 4}))
+		return encodeProfile(genProfile(t, genOpts{types: nt, tieRich: true, negative: true, labels: true, inlines: true, maxFuncs: mf, maxSamples: ms, maxDepth: md}))
 	}
 	for i := 0; i < ns; i++ {
 		c.profs = append(c.profs, mk())
